@@ -142,6 +142,15 @@ def generate(spec):
             # the scenario is registered again under its name with another definition: what the new definition does not
             # mention goes back to the manager's base values / the model's own
             ops.append({"op": "add_scenario", "manager": mgrn, "name": sc, "dict": c06.gen_settings(rng, tpl, base, partial_runspecs=True)})
+    if rng.random() < 0.25 and not cfg.get("xmile"):
+        # the FIRST thing that happens to a scenario registered with run specs of its own is a REST run that names only a new
+        # stop time (nothing has simulated the scenario before: observation is sparse in these histories)
+        withrs = [s_ for s_, d_ in mgr["scenarios"].items() if "runspecs" in d_ and "starttime" in d_["runspecs"]]
+        if withrs:
+            sc_ = rng.choice(withrs)
+            ops.insert(0, {"op": "rest_run", "manager": "smF", "scenario": sc_, "settings": {"smF": {sc_: {"runspecs": {"stoptime": 9.0}}}},
+                           "equations": rng.sample(T.ELEMENTS[tpl], 2)})
+            return {"property": PROPERTY, "config": cfg, "ops": ops, "observe": "sparse"}
     return {"property": PROPERTY, "config": cfg, "ops": ops, "observe": rng.choice(["each", "each", "sparse"])}
 
 
